@@ -14,6 +14,9 @@ pub fn sample_rate(max: f64) -> BoxedStrategy<f32> {
         3 => log_uniform(100.0, max).prop_map(move |f| f.max(100.0).min(max as f32)),
         1 => log_uniform(100.0, max).prop_map(move |f| f.round().max(100.0).min(max as f32)),
         2 => proptest::sample::select(fixed),
+        // round rates: every multiple of 500 Hz, and powers of two
+        2 => (1u32..=384).prop_map(move |k| ((k * 500) as f32).min(max as f32).max(100.0)),
+        1 => (7u32..=17).prop_map(move |j| ((1u32 << j) as f32).min(max as f32).max(100.0)),
     ]
     .boxed()
 }
